@@ -9,8 +9,9 @@ let next_universe st =
       let cands = next_list st (fun st ->
           let cname = next_str st in
           let readable = next_bool st in
+          let sdist = next_bool st in
           let d = next_dist st in
-          { cname = cname; cdist = d; creadable = readable }) in
+          { cname = cname; cdist = d; creadable = readable; csdist = sdist }) in
       (key, cands))
 
 let next_optnat st = next_opt st (fun st -> nat_of_int (next_int st))
@@ -61,8 +62,10 @@ let handle line =
     let cons = next_opt st (fun st -> next_list st next_dist) in
     let remove_cons = next_bool st in
     let maxdg = next_optnat st in
+    let ob_all = next_bool st in
+    let ob = next_list st next_str in
     let u = flatten_stack rs in
-    (match perform_compile_stack fuel e rs inputs cons remove_cons maxdg with
+    (match perform_compile_stack_ob fuel e rs inputs cons remove_cons maxdg ob_all ob with
      | COk (g, roots) ->
        Printf.sprintf "OK %s ROOTS %d %s" (print_graph e g) (List.length roots) (String.concat " " (List.map (key_of g) roots)) ^ " " ^ print_emitted e g roots
        ^ Printf.sprintf " CHK %s %s %s %s" (b2s (pins_ok_b e u g)) (b2s (coherent_b g roots)) (b2s (closed_b g roots)) (b2s (explain_honest_b e g roots))
